@@ -33,6 +33,7 @@ type injectCase struct {
 	Method, Accept, Mode, Dest, Referer string
 	Status                              int
 	Ctype, Dispo, Body, First, Cenc     string
+	Setup                               string // configuration class of the handlers
 	Banner, Shim                        bool
 }
 
@@ -163,34 +164,55 @@ func injectDriver(a *Args) {
 		}
 	}()
 	backendHost := ln.Addr().String()
+	// configurations of the two handlers (documented flags of the agent: --inject-banner, --banner-height,
+	// --favicon-url, --shim-path)
+	type injectSetup struct{ banner, height, favicon, shimPath string }
+	setups := map[string]injectSetup{
+		"plain":   {"<b>BANNER</b>", "40px", "", "shimp"},
+		"favicon": {"<b>BANNER</b>", "40px", "https://icons.example/f.png?a=1&b=2", "shimp"},
+		"rich":    {`<div class="b" style='c:d'>{{.Banner}} &amp; <i>more</i></div>`, "12%", "/static/fav.ico", "/x/shim-path"},
+	}
 	// the script the shim inserts, obtained from ShimBody itself on a minimal document
-	shimFunc, _ := websockets.ShimBody("shimp")
-	probe := &http.Response{Header: http.Header{"Content-Type": {"text/html"}}, Body: io.NopCloser(strings.NewReader("<head>"))}
-	shimFunc(probe)
-	pb, _ := io.ReadAll(probe.Body)
-	shimCode := strings.TrimPrefix(string(pb), "<head>")
+	shimCodes := map[string]string{}
+	for name, st := range setups {
+		shimFunc, _ := websockets.ShimBody(st.shimPath)
+		probe := &http.Response{Header: http.Header{"Content-Type": {"text/html"}}, Body: io.NopCloser(strings.NewReader("<head>"))}
+		shimFunc(probe)
+		pb, _ := io.ReadAll(probe.Body)
+		shimCodes[name] = strings.TrimPrefix(string(pb), "<head>")
+	}
 
-	chains := map[[2]bool]http.Handler{}
+	type chainKey struct {
+		bn, sh bool
+		setup  string
+	}
+	chains := map[chainKey]http.Handler{}
 	ctx, cancel := context.WithCancel(context.Background())
 	defer cancel()
-	for _, bn := range []bool{false, true} {
-		for _, sh := range []bool{false, true} {
-			rp := httputil.NewSingleHostReverseProxy(&url.URL{Scheme: "http", Host: backendHost})
-			rp.FlushInterval = 100 * time.Millisecond
-			var h http.Handler = rp
-			if sh {
-				h, _ = websockets.Proxy(ctx, h, backendHost, "shimp", false, false, func(h http.Handler, _ *metrics.MetricHandler) http.Handler { return h }, nil)
-				f, _ := websockets.ShimBody("shimp")
-				rp.ModifyResponse = f
+	for name, st := range setups {
+		for _, bn := range []bool{false, true} {
+			for _, sh := range []bool{false, true} {
+				rp := httputil.NewSingleHostReverseProxy(&url.URL{Scheme: "http", Host: backendHost})
+				rp.FlushInterval = 100 * time.Millisecond
+				var h http.Handler = rp
+				if sh {
+					h, _ = websockets.Proxy(ctx, h, backendHost, st.shimPath, false, false, func(h http.Handler, _ *metrics.MetricHandler) http.Handler { return h }, nil)
+					f, _ := websockets.ShimBody(st.shimPath)
+					rp.ModifyResponse = f
+				}
+				if bn {
+					h, _ = banner.Proxy(ctx, h, st.banner, st.height, st.favicon, nil)
+				}
+				chains[chainKey{bn, sh, name}] = h
 			}
-			if bn {
-				h, _ = banner.Proxy(ctx, h, "<b>BANNER</b>", "40px", "", nil)
-			}
-			chains[[2]bool{bn, sh}] = h
 		}
 	}
 	runCase := func(ic injectCase, mode string) {
 		id := fmt.Sprintf("j%d", ic.N)
+		if _, ok := setups[ic.Setup]; !ok {
+			ic.Setup = "plain"
+		}
+		shimCode := shimCodes[ic.Setup]
 		mu.Lock()
 		script[id] = ic
 		mu.Unlock()
@@ -226,7 +248,7 @@ func injectDriver(a *Args) {
 			req.Header.Set("Referer", fmt.Sprintf("https://other.example/doc/%d", ic.N))
 		}
 		rec := httptest.NewRecorder()
-		chains[[2]bool{ic.Banner, ic.Shim}].ServeHTTP(rec, req)
+		chains[chainKey{ic.Banner, ic.Shim, ic.Setup}].ServeHTTP(rec, req)
 		got := rec.Body.Bytes()
 		orig := injectWire(ic)
 		if ic.Method == "HEAD" {
@@ -241,7 +263,7 @@ func injectDriver(a *Args) {
 			kind = "same"
 		case ic.Cenc != "gzip" && bytes.Contains(orig, []byte("<head>")) && bytes.Equal(got, withScript):
 			kind = "script"
-		case bytes.Contains(got, []byte(`id="inverting-proxy-frame"`)) && bytes.Contains(got, []byte("<b>BANNER</b>")):
+		case bytes.Contains(got, []byte(`id="inverting-proxy-frame"`)) && bytes.Contains(got, []byte(setups[ic.Setup].banner)):
 			kind = "frame"
 		}
 		h := rec.Header()
@@ -255,9 +277,9 @@ func injectDriver(a *Args) {
 		frameOK := h.Get("Content-Encoding") == "" && bytes.Contains(got, []byte(`src="`+req.URL.String()+`"`)) && strings.Contains(h.Get("Cache-Control"), "no-store") &&
 			strings.EqualFold(h.Get("X-Frame-Options"), "sameorigin") && bytes.Count(got, []byte("<iframe")) == 1
 		c := map[string]interface{}{"method": ic.Method, "accept": ic.Accept, "mode": ic.Mode, "dest": ic.Dest, "referer": ic.Referer, "status": ic.Status,
-			"ctype": ic.Ctype, "dispo": ic.Dispo, "body": ic.Body, "first": ic.First, "banner": ic.Banner, "shim": ic.Shim, "cenc": ic.Cenc}
+			"ctype": ic.Ctype, "dispo": ic.Dispo, "body": ic.Body, "first": ic.First, "banner": ic.Banner, "shim": ic.Shim, "cenc": ic.Cenc, "setup": ic.Setup}
 		out := map[string]interface{}{"kind": kind, "hdrs_same": hdrsSame && reprSame, "repr_same": reprSame, "frame_ok": frameOK, "status": rec.Code, "len": len(got), "orig_len": len(orig)}
-		sig := fmt.Sprintf("inject:%s/%s/%s/%s/%s/%d/%s/%s/%s/%s/%s/b=%v/s=%v", ic.Method, ic.Accept, ic.Mode, ic.Dest, ic.Referer, ic.Status, ic.Ctype, ic.Dispo, ic.Body, ic.First, ic.Cenc, ic.Banner, ic.Shim)
+		sig := fmt.Sprintf("inject:%s/%s/%s/%s/%s/%d/%s/%s/%s/%s/%s/b=%v/s=%v", ic.Method, ic.Accept, ic.Mode, ic.Dest, ic.Referer, ic.Status, ic.Ctype, ic.Dispo, ic.Body, ic.First, ic.Cenc, ic.Banner, ic.Shim) + "/" + ic.Setup
 		if mode != "" {
 			sig += ":" + mode
 			id += mode
@@ -298,7 +320,7 @@ func injectDriver(a *Args) {
 	bodies := []string{"no-head", "HEAD-upper", "head-late", "big-no-head", "head-early", "head-at-0"}
 	for i := 0; i < n; i++ {
 		work2 <- injectCase{N: 2000000 + i, Method: "GET", Accept: "html", Mode: "none", Dest: "none", Referer: "none", Status: 200,
-			Ctype: "html", Dispo: "none", Body: bodies[i%len(bodies)], First: []string{"all", "tiny", "half"}[i%3], Banner: false, Shim: true}
+			Ctype: "html", Dispo: "none", Body: bodies[i%len(bodies)], First: []string{"all", "tiny", "half"}[i%3], Banner: false, Shim: true, Setup: []string{"plain", "rich"}[(i/6)%2]}
 	}
 	close(work2)
 	for w := 0; w < 32; w++ {
